@@ -12,6 +12,7 @@ IDS = sys.argv[2:] or ["C%02d" % i for i in range(1, 21)]
 V = "/verif"
 WT = "/tmp/rfc"
 BUILD = bool(os.environ.get("BUILD"))
+OFFSET = int(os.environ.get("RF_OFFSET", "0"))  # later rounds are stored as refactors/<id>/<n + offset>
 
 
 def sh(cmd, cwd=None, timeout=3000, env=None):
@@ -27,7 +28,7 @@ def one(job):
     src = os.path.join(SRC, "%s-out" % pid, str(n))
     if not os.path.exists(os.path.join(src, "patch.diff")):
         return pid, n, None
-    meta = {"property": pid, "n": n, "kind": "behaviour-preserving change by a fresh sub-agent (property text + scratch worktree only)"}
+    meta = {"property": pid, "n": n + OFFSET, "round": 1 + OFFSET // 4, "kind": "behaviour-preserving change by a fresh sub-agent (property text + scratch worktree only)"}
     wt = os.path.join(WT, "%s_%d" % (pid, n))
     sh("git -C /repo worktree remove --force %s" % wt)
     sh("git -C /repo worktree add --detach %s HEAD" % wt)
@@ -53,7 +54,7 @@ def one(job):
         meta["silent"] = rc3 == 0
         return pid, n, meta
     finally:
-        dst = os.path.join(V, "refactors", pid, str(n))
+        dst = os.path.join(V, "refactors", pid, str(n + OFFSET))
         os.makedirs(dst, exist_ok=True)
         for fn in ("patch.diff", "README.md"):
             if os.path.exists(os.path.join(src, fn)):
